@@ -196,9 +196,9 @@ type ReportUnresolvedConfig struct {
 // ReportUnresolved generates report for unresolved elements
 func ReportUnresolved(logStream, dbStream io.Reader, ruc ReportUnresolvedConfig) error {
 	return utils.WithResolvedDatabase(dbStream, ruc.ParserConfig, ruc.ResolverConfig,
-		func(nl shared.DBNodeMap) error {
+		func(nl shared.DBNodeMap) (err error) {
 			r := NewUnsolvedReporter(ruc.ReporterConfig, nl)
-			defer r.Flush()
+			defer utils.FlushOnExit(r, &err)
 			f := filter.GetIntervalNodeFilter(ruc.FilterConfig)
 			return utils.WalkNodesInStream(logStream, ruc.DateFormat, ruc.ParserConfig, f, r)
 		})
@@ -213,9 +213,9 @@ type ReportQuantityConfig struct {
 }
 
 // ReportQuantity Generates a quantity report
-func ReportQuantity(logStream io.Reader, rqc ReportQuantityConfig) error {
+func ReportQuantity(logStream io.Reader, rqc ReportQuantityConfig) (err error) {
 	r := NewQuantityReporter(rqc.ReporterConfig, rqc.Descending)
-	defer r.Flush()
+	defer utils.FlushOnExit(r, &err)
 	f := filter.GetIntervalNodeFilter(rqc.FilterConfig)
 	return utils.WalkNodesInStream(logStream, rqc.DateFormat, rqc.ParserConfig, f, r)
 }
@@ -230,9 +230,9 @@ type ReportTotalsConfig struct {
 
 func ReportTotals(logStream, dbStream io.Reader, rqc ReportTotalsConfig) error {
 	return utils.WithResolvedDatabase(dbStream, rqc.ParserConfig, rqc.ResolverConfig,
-		func(nl shared.DBNodeMap) error {
+		func(nl shared.DBNodeMap) (err error) {
 			r := NewTotalReporter(rqc.ReporterConfig, nl)
-			defer r.Flush()
+			defer utils.FlushOnExit(r, &err)
 			f := filter.GetIntervalNodeFilter(rqc.FilterConfig)
 			return utils.WalkNodesInStream(logStream, rqc.DateFormat, rqc.ParserConfig, f, r)
 		})
